@@ -615,6 +615,10 @@ class Engine:
             self.abstracted.add(f"f-string {key!r}: opaque value")
             return V(STR, fresh("fstr", ty.StrSort))
         sorts = [h.z.sort() for h in holes]
+        f = self.fmt_fn(key, sorts)
+        return V(STR, f(*[h.z for h in holes]))
+
+    def fmt_fn(self, key: str, sorts):
         fname = "fmt_" + ty.safe_name(key) + "_" + "_".join(str(s) for s in sorts)
         if fname not in self.fmt_templates:
             f = z3.Function(fname, *sorts, ty.StrSort)
@@ -626,6 +630,9 @@ class Engine:
                 invs.append(z3.ForAll(xs, inv(f(*xs)) == xs[i], patterns=[f(*xs)]))
             self.extra_axioms.extend(invs)
             self.assumptions.add("A-STR: an f-string with holes is an injective function of its hole values (per template)")
+        return self.fmt_templates[fname]
+
+    def _unused_fmt(self, holes, fname):
         return V(STR, self.fmt_templates[fname](*[h.z for h in holes]))
 
     def ev_FormattedValue(self, node, st, fr):
